@@ -614,6 +614,106 @@ func genC15() {
 			g.def(rx.name, "nat", fmt.Sprint(re.NumSubexp()), fmt.Sprintf("capture groups of %s %s = %q", rx.rel, rx.v, lit))
 		}
 	}
+	// ---- wave 3: tarfs (*FS).open — the hop counter is the only thing that bounds the recursion: which
+	// type flags are followed, by how much each recursive call raises the counter, the limit and its test
+	{
+		rel := "pkg/apk/internal/tarfs/tarfs.go"
+		if fd := findFunc(rel, "FS", "open"); fd != nil && len(fd.Type.Params.List) == 2 && len(fd.Type.Params.List[1].Names) == 1 {
+			hopsName := fd.Type.Params.List[1].Names[0].Name
+			incr := map[string]int64{"TypeLink": -1, "TypeSymlink": -1}
+			ast.Inspect(fd, func(m ast.Node) bool {
+				cc, ok := m.(*ast.CaseClause)
+				if !ok {
+					return true
+				}
+				var flags []string
+				for _, e := range cc.List {
+					if se, ok := e.(*ast.SelectorExpr); ok {
+						if _, known := incr[se.Sel.Name]; known {
+							flags = append(flags, se.Sel.Name)
+						}
+					}
+				}
+				if len(flags) == 0 {
+					return true
+				}
+				// the smallest increase among the recursive calls of this arm
+				min, calls := int64(1<<30), 0
+				for _, st := range cc.Body {
+					ast.Inspect(st, func(k ast.Node) bool {
+						c, ok := k.(*ast.CallExpr)
+						if !ok || len(c.Args) != 2 {
+							return true
+						}
+						se, ok := c.Fun.(*ast.SelectorExpr)
+						if !ok || se.Sel.Name != fd.Name.Name {
+							return true
+						}
+						calls++
+						inc := int64(-1)
+						switch a := c.Args[1].(type) {
+						case *ast.Ident:
+							if a.Name == hopsName {
+								inc = 0
+							}
+						case *ast.BinaryExpr:
+							if id, ok := a.X.(*ast.Ident); ok && id.Name == hopsName && a.Op == token.ADD {
+								if v, ok := intLit(a.Y); ok {
+									inc = v
+								}
+							}
+						}
+						if inc < 0 {
+							fail("%s: FS.open: hop argument of a recursive call not of the form %s or %s+N: %s", rel, hopsName, hopsName, exprText(c.Args[1]))
+							inc = 0
+						}
+						if inc < min {
+							min = inc
+						}
+						return true
+					})
+				}
+				if calls == 0 {
+					fail("%s: FS.open: the arm for %v makes no recursive call", rel, flags)
+					return true
+				}
+				for _, f := range flags {
+					incr[f] = min
+				}
+				return true
+			})
+			if incr["TypeLink"] < 0 || incr["TypeSymlink"] < 0 {
+				fail("%s: FS.open: no switch arm follows tar.TypeLink / tar.TypeSymlink (%v)", rel, incr)
+			}
+			g.def("tarfs_hop_incr", "Z * Z", fmt.Sprintf("(%d, %d)%%Z", incr["TypeLink"], incr["TypeSymlink"]), "FS.open: least increase of the hop counter on the recursive calls that follow a (hard link, symbolic link)")
+			guard := ""
+			ast.Inspect(fd, func(m ast.Node) bool {
+				if is, ok := m.(*ast.IfStmt); ok && guard == "" {
+					if be, ok := is.Cond.(*ast.BinaryExpr); ok {
+						if id, ok := be.X.(*ast.Ident); ok && id.Name == hopsName {
+							guard = "hops " + be.Op.String() + " " + exprText(be.Y)
+						}
+					}
+				}
+				return true
+			})
+			g.def("tarfs_hops_guard", "string", coqStr(guard), "FS.open: the test that ends the chase with an error")
+			if e := findValue(rel, "maxHops"); e != nil {
+				if v, ok := intLit(e); ok {
+					g.def("tarfs_max_hops", "Z", fmt.Sprintf("%d%%Z", v), "tarfs maxHops")
+				} else {
+					fail("%s: maxHops is not an integer literal", rel)
+				}
+			}
+			defSites("tarfs_open", fd.Body, "FS.open")
+		} else if fd != nil {
+			fail("%s: FS.open: expected the parameters (name, hops)", rel)
+		}
+	}
+	// lock.FromFile and GroupEntry / UserEntry parsing are pinned above; lock.FromFile's sites:
+	if fd := findFunc("pkg/lock/lock.go", "", "FromFile"); fd != nil {
+		defSites("lock_from_file", fd.Body, "lock.FromFile")
+	}
 	// RemoveLabel's loop: the condition and what the body assigns to the loop variable
 	if fd := findFunc("internal/cli/lock.go", "", "RemoveLabel"); fd != nil {
 		cond, sep, lim := "", "", int64(-1)
